@@ -14,6 +14,9 @@ R02.5 OFS_DELTA direction: the writer stores `own offset - base offset` for a ba
       (PackChunkGenerator.entries hit), every reader computes `own offset - delta`; entries[sha] is recorded with
       the offset *before* it is advanced, and every yielded chunk enters the crc32, the trailer digest and the
       offset.
+R02.6 per-object CRC / compressed-chunk bookkeeping of the zlib readers: the bytes zlib hands back as unused are cut off
+      with `x[:-n]`, which is only right for n > 0 (`x[:-0]` is empty): every such slice in a function that reads
+      `.unused_data` is reachable only through the true edge of a non-emptiness test of the unused bytes (or n > 0).
 """
 from __future__ import annotations
 
@@ -268,11 +271,13 @@ def run(prog: Program, rep, tier="quick"):
            "len(self.index) == len(self.data)" in src and "get_pack_checksum()" in src and "get_stored_checksum()" in src and "ChecksumMismatch" in src, "", cl.node.lineno)
     r02_4(prog, rep, m, F, fn)
     r02_5(prog, rep, m, F, fn)
+    r02_6(prog, rep, m, F)
     rep.floor("R02.1", 18)
     rep.floor("R02.2", 5)
     rep.floor("R02.3", 8)
     rep.floor("R02.4", 9)
     rep.floor("R02.5", 8)
+    rep.floor("R02.6", 3)
 
 
 def _binops(node, op):
@@ -441,15 +446,77 @@ def r02_5(prog, rep, m, F, fn):
         if q in ("pack_object_header", "unpack_object", "unpack_object_at", g.qual) or ".<locals>." in q:
             continue
         for br in [x for x in ast.walk(f.node) if isinstance(x, ast.If) and "== OFS_DELTA" in norm(x.test) and m.enclosing_func(x) is f]:
-            ar = [x for s in br.body for x in ast.walk(s) if isinstance(x, ast.BinOp) and isinstance(x.op, (ast.Add, ast.Sub))
-                  and any(k in norm(x.right) or k in norm(x.left) for k in ("delta_base", "delta_offset"))]
+            # `a - b` and (canonical form of `a = a - b`) `a -= b` alike: (left, op, right)
+            ar = [(x, x.left, x.op, x.right) for s in br.body for x in ast.walk(s) if isinstance(x, ast.BinOp)] + \
+                 [(x, x.target, x.op, x.value) for s in br.body for x in ast.walk(s) if isinstance(x, ast.AugAssign)]
+            ar = [t for t in ar if isinstance(t[2], (ast.Add, ast.Sub)) and any(k in norm(t[3]) or k in norm(t[1]) for k in ("delta_base", "delta_offset"))]
             if not ar:
                 continue
             n_sites += 1
-            for x in ar:
-                good = isinstance(x.op, ast.Sub) and any(k in norm(x.right) for k in ("delta_base", "delta_offset")) and "offset" in norm(x.left) \
-                    and not any(k in norm(x.left) for k in ("delta_base", "delta_offset"))
+            for x, left, op, right in ar:
+                good = isinstance(op, ast.Sub) and any(k in norm(right) for k in ("delta_base", "delta_offset")) and "offset" in norm(left) \
+                    and not any(k in norm(left) for k in ("delta_base", "delta_offset"))
                 rep.ob("R02.5", PACK, q, f"OFS_DELTA base computed as own offset minus the stored distance: `{norm(x, 60)}`", good,
                        "the writer stores `offset - base_offset`; any other combination resolves the delta against a different object", x.lineno)
     if n_sites < 4:
         raise AnalysisError(f"expected >= 4 OFS_DELTA base computations, found {n_sites}")
+
+
+def r02_6(prog, rep, m, F):
+    from sa.common import var_cmp
+    rep.rule("R02.6", "zlib readers: trimming the unused tail with x[:-n] only under a test that the tail is non-empty (x[:-0] is empty, "
+                      "so the last slice would drop out of the per-object CRC and the kept compressed chunks)")
+    n_sites = 0
+    for q, f in sorted(m.funcs.items()):
+        if not any(isinstance(x, ast.Attribute) and x.attr == "unused_data" for x in ast.walk(f.node)):
+            continue
+        g = cfg_of(prog, f)
+        # names bound from .unused_data, and lengths of them
+        unused_names = {s_.targets[0].id for s_ in ast.walk(f.node) if isinstance(s_, ast.Assign) and isinstance(s_.targets[0], ast.Name)
+                        and isinstance(s_.value, ast.Attribute) and s_.value.attr == "unused_data"}
+
+        def is_unused(e):
+            return (isinstance(e, ast.Name) and e.id in unused_names) or (isinstance(e, ast.Attribute) and e.attr == "unused_data")
+        len_names = {s_.targets[0].id for s_ in ast.walk(f.node) if isinstance(s_, ast.Assign) and isinstance(s_.targets[0], ast.Name)
+                     and isinstance(s_.value, ast.Call) and callee_name(s_.value) == "len" and s_.value.args and is_unused(s_.value.args[0])}
+        # every definition of a length name is such a len()
+        for s_ in ast.walk(f.node):
+            if isinstance(s_, (ast.Assign, ast.AugAssign)):
+                t = s_.targets[0] if isinstance(s_, ast.Assign) else s_.target
+                if isinstance(t, ast.Name) and t.id in len_names and not (isinstance(s_, ast.Assign) and isinstance(s_.value, ast.Call)
+                                                                          and callee_name(s_.value) == "len" and s_.value.args and is_unused(s_.value.args[0])):
+                    len_names.discard(t.id)
+        guards = {}
+        for i, n in g.nodes.items():
+            if n.kind != "test":
+                continue
+            e = n.ast
+            if is_unused(e) or (isinstance(e, ast.Name) and e.id in len_names):
+                guards[i] = "true"
+            elif isinstance(e, ast.Call) and callee_name(e) == "len" and e.args and is_unused(e.args[0]):
+                guards[i] = "true"
+            else:
+                v = var_cmp(e, F)
+                if v is not None and ((isinstance(v[0], ast.Name) and v[0].id in len_names) or
+                                      (isinstance(v[0], ast.Call) and callee_name(v[0]) == "len" and v[0].args and is_unused(v[0].args[0]))):
+                    if (v[1], v[2]) in ((">", 0), (">=", 1), ("!=", 0)):
+                        guards[i] = "true"
+                    elif (v[1], v[2]) in (("==", 0), ("<=", 0), ("<", 1)):
+                        guards[i] = "false"
+        r = reach(g, [g.entry], include_srcs=True, edge_ok=lambda a, b, l: not (a in guards and l == guards[a]))
+        for i, n in g.nodes.items():
+            for e in node_exprs(n):
+                for sub in [x for x in ast.walk(e) if isinstance(x, ast.Subscript) and isinstance(x.slice, ast.Slice)
+                            and isinstance(x.slice.upper, ast.UnaryOp) and isinstance(x.slice.upper.op, ast.USub)
+                            and not isinstance(x.slice.upper.operand, ast.Constant)]:
+                    n_sites += 1
+                    amount = x_ = sub.slice.upper.operand
+                    known = (isinstance(x_, ast.Name) and x_.id in len_names) or \
+                        (isinstance(x_, ast.Call) and callee_name(x_) == "len" and x_.args and is_unused(x_.args[0]))
+                    rep.ob("R02.6", PACK, q, f"`{norm(sub, 40)}`: the trimmed amount is the length of the unused tail and the slice is "
+                           f"reached only when that tail is non-empty", known and bool(guards) and i not in r,
+                           f"`{norm(sub, 40)}` is reachable with `{norm(amount)}` == 0 (a zlib stream that ends exactly at the end of "
+                           f"the bytes fed in): x[:-0] is empty, so the whole last slice is left out of the CRC32 / compressed "
+                           f"chunks and the index dulwich writes disagrees with the pack", sub.lineno)
+    if n_sites < 3:
+        raise AnalysisError(f"expected >= 3 unused-tail trims in the zlib readers, found {n_sites}")
